@@ -414,13 +414,16 @@ def overlay():
     return {vlib.REPO + "/internal/outputstream/zz_verif_out_test.go": vlib.HGO + "/outputstream/zz_verif_out_test.go"}
 
 
-def run_go(lines, tag="out"):
+def run_go(lines, tag="out", scale=None):
     wd = vlib.workdir()
     inp, outp = os.path.join(wd, tag + ".in"), os.path.join(wd, tag + ".out")
     open(inp, "w").write("\n".join(lines) + "\n")
     if os.path.exists(outp):
         os.remove(outp)
-    rc, out = vlib.go_test(PKG, overlay(), "^TestVerifOut$", {"VERIF_IN": inp, "VERIF_OUT": outp}, timeout=600)
+    env = {"VERIF_IN": inp, "VERIF_OUT": outp}
+    if scale:
+        env["VERIF_WAIT_SCALE"] = str(scale)
+    rc, out = vlib.go_test(PKG, overlay(), "^TestVerifOut$", env, timeout=1800)
     if rc != 0 or not os.path.exists(outp):
         return None, out
     return open(outp).read().split("\n")[:-1], out
@@ -881,6 +884,30 @@ def run(ck, replay):
         why = monitor(c, g)
         if why:
             monfail.append((i, why))
+    # the driver's wall-clock bound ("stuck") counts only if it reproduces when the case runs alone
+    # with doubled and quadrupled bounds; a really stuck reader reproduces, a loaded machine does not
+    stuck_info = {"stuck_verdicts": 0, "isolated_reruns": 0, "not_reproduced": 0}
+    kept = []
+    for i, why in monfail:
+        if why[0] != "getnext-stuck" or cases[i]["kind"] == "outs" or stuck_info["stuck_verdicts"] >= 8:
+            kept.append((i, why)); continue
+        stuck_info["stuck_verdicts"] += 1
+        real = True
+        for scale in (2, 4):
+            stuck_info["isolated_reruns"] += 1
+            g2, _ = run_go([lines[i]], "rerun", scale)
+            w2 = monitor(cases[i], g2[0]) if g2 else why
+            if not w2:
+                real = False; glines[i] = g2[0]; break
+            if w2[0] != "getnext-stuck":
+                why = w2; glines[i] = g2[0]; break
+        if real:
+            kept.append((i, why))
+        else:
+            stuck_info["not_reproduced"] += 1
+    monfail = kept
+    mism = [i for i in range(len(cases)) if glines[i] is None or i >= len(mlines) or glines[i] != mlines[i]]
+    ck.notes["timing_reruns"] = stuck_info
     opdist = {}
     for c in cases:
         for o in c["ops"]:
